@@ -171,6 +171,41 @@ def deep_dup_case(rng, prof, dups):
     return case_run(prof, state(exec=prog), 0, len(prog), world=(n1, ()))
 
 
+def fanin_program_case(rng, prof):
+    """GRAPH.ADD, 18..33 x NODE*ADD, EDGE*ADD from 17..32 origins to one destination in descending / shuffled id order,
+    GRAPH.DUP, existing edges added again (and one weight set), then predecessors, neighbours (one successor at most),
+    edge weights, PRINT*DIFF against the snapshot (at most one line per loop) and the stack depth"""
+    k = rng.randrange(17, 33)
+    n = k + 1
+    b = next_base(n + 2)
+    ids = [b + 1 + i for i in range(n)]
+    dest = rng.choice([ids[0], ids[-1], rng.choice(ids)])
+    origins = [i for i in ids if i != dest]
+    if rng.random() < 0.2: origins[rng.randrange(k)] = dest      # a self-loop among them
+    origins.sort()
+    if rng.random() < 0.5: origins.reverse()
+    else: rng.shuffle(origins)
+    prog = [I("GRAPH.ADD")]
+    for _ in range(n):
+        prog += [Z(rng.choice(GSTATES)), I("GRAPH.NODE*ADD")]
+    w = lambda: rng.choice(stepgen.GWEIGHTS_PLAIN)
+    for o in origins:
+        prog += [Z(o), Z(dest), F(w()), I("GRAPH.EDGE*ADD")]
+    prog += [I("GRAPH.DUP")]
+    again = {0: [origins[0]], 1: [origins[-1]], 2: [max(origins)], 3: rng.sample(origins, 3), 4: list(origins)}[rng.randrange(5)]
+    for o in again:
+        prog += [Z(o), Z(dest), F(w()), I("GRAPH.EDGE*ADD")]
+    prog += [IV([]), Z(dest), I("GRAPH.NODE*PREDECESSORS"), I("GRAPH.PRINT*DIFF")]
+    if rng.random() < 0.5:
+        o = rng.choice(origins)
+        prog += [Z(o), Z(dest), F(fbits(77.0)), I("GRAPH.EDGE*SETWEIGHT"), Z(o), Z(dest), I("GRAPH.EDGE*GETWEIGHT"), I("GRAPH.PRINT*DIFF")]
+    prog += [IV(stepgen.rand_filter(rng)), Z(dest), I("GRAPH.NODE*PREDECESSORS")]
+    if dest not in origins:                                     # dest has no successor: NEIGHBORS = predecessors
+        prog += [IV([]), Z(dest), I("GRAPH.NODE*NEIGHBORS")]
+    prog += [IV([]), Z(rng.choice(origins)), I("GRAPH.NODE*SUCCESSORS"), Z(max(origins)), Z(dest), I("GRAPH.EDGE*GETWEIGHT"), I("GRAPH.STACKDEPTH")]
+    return case_run(prof, state(exec=prog), 0, len(prog), world=(b + 1, ()))
+
+
 def streams(seed, tier):
     rng = random.Random(seed)
     names = model_names()
@@ -198,6 +233,12 @@ def streams(seed, tier):
     cases = [deep_dup_case(rng, k % 2, d) for k, d in enumerate(dd[:nd])]
     out.append(Stream("dup-depth<=101", "run", "run.check", cases,
                       "GRAPH.DUP + mutation repeated up to 101 times (the 100-slot buffer fills, further DUPs are ignored), then NODE*HISTORY / EDGE*HISTORY / NODES*HISTORY at depths 0,1,2,50,98..101 and random ones"))
+    nf = {"quick": 24, "thorough": 300, "search": 100}[tier]
+    frng = random.Random(seed + 181)
+    cases = [fanin_program_case(frng, k % 2) for k in range(nf)]
+    out.append(Stream("fan-in-programs", "run", "run.check", cases,
+                      "GRAPH.* programs that build a destination with 17..32 incoming edges in descending / shuffled origin-id order (EDGE*ADD), DUP, add existing edges again, then NODE*PREDECESSORS / NEIGHBORS / SUCCESSORS, "
+                      "EDGE*SETWEIGHT / GETWEIGHT, PRINT*DIFF against the snapshot, executed step by step by the interpreter"))
     return out
 
 
